@@ -20,6 +20,20 @@ class Context:
         if key not in self._progs:
             tus = build.extract(self.root, scope=scope, extra_flags=tuple(flags), only=only)
             self._progs[key] = Program(tus, self.root)
+            prog = self._progs[key]
+            from . import paths
+
+            def resolver(f, call, prog=prog):
+                c = call.get("callee")
+                if not c or c.get("dispatch") != "direct":
+                    return None
+                g = prog.functions.get(c["mn"])
+                if g is None or g is f or g.file != f.file or not g.d.get("static") or g.kind != "function":
+                    return None
+                if g.qn in paths.NO_INLINE:
+                    return None
+                return g
+            paths.DEFAULT_INLINE = resolver
         return self._progs[key]
 
     def witness(self, path, flags=()):
